@@ -596,6 +596,31 @@ func c04AddCase(out *emit.Out, in c04Input) {
 		Coq: term})
 }
 
+// c04Interop: ECDHE suites against an independent peer.  The puppet computes the SM2 key agreement with its own code
+// (harness/internal/own: the MQV point, Z values and KDF written from GB/T 32918.3 / GB/T 38636 6.4.5.4, roles as the standard
+// assigns them: the client initiates), derives master secret, keys and Finished values with its own PRF, and checks the real
+// endpoint's Finished.  The real endpoint completes and application data flows both ways only if its pre-master secret is the
+// one of the independent computation; two library endpoints that deviate in the same way would still agree with each other.
+type c04InteropIn struct {
+	Stack  string `json:"stack"`
+	Target string `json:"target"` // the real endpoint's role
+	Suite  uint16 `json:"suite"`
+}
+
+func c04Interop(out *emit.Out, in c04InteropIn) {
+	ci := c08Input{Stack: in.Stack, Target: in.Target, Suite: in.Suite, CertReq: true}
+	flows := c08Legal(ci)
+	ci.Evs = flows[0]
+	acc, alert, direct, delivered := c08Run(ci)
+	if direct == "" && !acc {
+		direct = "ECDHE handshake with an independent implementation of the SM2 key agreement fails: the pre-master secret differs from the standard's"
+	} else if direct == "" && delivered == "" {
+		direct = "ECDHE connection with an independent implementation delivers no application data: keys differ from the standard's"
+	}
+	out.Add(emit.Case{Scenario: "ecdhe-independent-peer/" + in.Stack + "-" + in.Target, Trivial: false, Input: in, Direct: direct,
+		Observed: map[string]interface{}{"completed": acc, "alert": alert, "delivered": delivered}})
+}
+
 func runC04(p params) error {
 	out := emit.New(p.out, "C04", "V.Corr.Run_C04", "case",
 		"captured connections: suites x full/resumed x client authentication x TLCP/DTLCP, random application writes in both directions; every case is non-trivial (a completed handshake with protected records in both directions); distinct by Coq term")
@@ -607,14 +632,27 @@ func runC04(p params) error {
 		}
 		var rp struct {
 			Cases []struct {
-				Input c04Input `json:"input"`
+				Scenario string          `json:"scenario"`
+				Input    json.RawMessage `json:"input"`
 			} `json:"cases"`
 		}
 		if err := json.Unmarshal(b, &rp); err != nil {
 			return err
 		}
 		for _, c := range rp.Cases {
-			c04AddCase(out, c.Input)
+			if strings.HasPrefix(c.Scenario, "ecdhe-independent-peer") {
+				var in c04InteropIn
+				if err := json.Unmarshal(c.Input, &in); err != nil {
+					return err
+				}
+				c04Interop(out, in)
+				continue
+			}
+			var in c04Input
+			if err := json.Unmarshal(c.Input, &in); err != nil {
+				return err
+			}
+			c04AddCase(out, in)
 		}
 		return out.Finish()
 	}
@@ -655,6 +693,14 @@ func runC04(p params) error {
 						c04AddCase(out, in)
 					}
 				}
+			}
+		}
+	}
+	// ECDHE against an independent implementation of the key agreement (both roles, both stacks, both modes)
+	for _, st := range []string{"tlcp", "dtlcp"} {
+		for _, su := range []uint16{0xe051, 0xe011} {
+			for _, tg := range []string{"server", "client"} {
+				c04Interop(out, c04InteropIn{Stack: st, Target: tg, Suite: su})
 			}
 		}
 	}
